@@ -37,9 +37,18 @@ def pkt_fields(c, pkt):
     return {'ptype': fv(c, pkt, 'packet_type'), 'ns': fv(c, pkt, 'namespace'), 'id': fv(c, pkt, 'id'), 'data': fv(c, pkt, 'data')}
 
 
+def nb_facts(d):
+    """facts about the spec function: scalars have no bytes leaves, a bytes value is one"""
+    scalar = z3.Or(*[smt.kind(d) == k for k in (smt.K_NONE, smt.K_BOOL, smt.K_INT, smt.K_FLOAT, smt.K_STR)])
+    return z3.And(z3.Implies(scalar, z3.Not(has_binary(d))), z3.Implies(smt.kind(d) == smt.K_BYTES, has_binary(d)))
+
+
 def data_is_binary_summary():
+    def res(c):
+        c.ctx.assume(nb_facts(c.a.data))
+        return S(has_binary(c.a.data))
     return Contract(target='packet.Packet._data_is_binary', schema=PKT_WORLD, self_obj=None, params={'data': 'V'},
-                    cases=[Case('nb>0', result=lambda c: S(has_binary(c.a.data)))], trusted=True,
+                    cases=[Case('nb>0', result=res)], trusted=True,
                     note='proved against the real body in the codec world (C01)')
 
 
